@@ -54,3 +54,185 @@ func LoopsContaining(fn *ssa.Function, b *ssa.BasicBlock) []*Loop {
 	}
 	return out
 }
+
+// Stutter is a definite non-termination witness: a back edge of a loop along which no
+// loop-carried value changes and nothing with an effect happens, so that once the edge
+// is taken the same iteration repeats forever.
+type Stutter struct {
+	Loop *Loop
+	Back *ssa.BasicBlock   // predecessor of the header on the stuttering back edge
+	Path []*ssa.BasicBlock // header … Back
+}
+
+var pureCallees = map[string]bool{
+	"builtin.len": true, "builtin.cap": true, "builtin.min": true, "builtin.max": true,
+	"bytes.Compare": true, "bytes.Equal": true, "strings.Compare": true, "strings.HasPrefix": true,
+	"strings.HasSuffix": true, "strings.Contains": true, "sort.SearchInts": true,
+}
+
+func pureInstr(in ssa.Instruction) bool {
+	switch x := in.(type) {
+	case *ssa.BinOp, *ssa.Phi, *ssa.IndexAddr, *ssa.Index, *ssa.FieldAddr, *ssa.Field, *ssa.Slice, *ssa.Convert,
+		*ssa.ChangeType, *ssa.If, *ssa.Jump, *ssa.DebugRef, *ssa.Extract, *ssa.Lookup, *ssa.MakeInterface, *ssa.ChangeInterface, *ssa.TypeAssert:
+		return true
+	case *ssa.UnOp:
+		return x.Op.String() != "<-" // channel receive blocks / has an effect
+	case *ssa.Call:
+		return pureCallees[CalleeName(x.Common())]
+	}
+	return false
+}
+
+// StutterLoops finds stuttering iterations in fn: a simple path header → … → header
+// inside a loop, consisting of pure instructions only, along which every loop-carried
+// value (header phi) evaluates to itself (phis met on the way are resolved by the edge
+// actually taken).
+func StutterLoops(fn *ssa.Function) []Stutter {
+	var out []Stutter
+	pureBlock := func(b *ssa.BasicBlock) bool {
+		for _, in := range b.Instrs {
+			if !pureInstr(in) {
+				return false
+			}
+		}
+		return true
+	}
+	for _, l := range Loops(fn) {
+		h := l.Header
+		var phis []*ssa.Phi
+		for _, in := range h.Instrs {
+			if ph, ok := in.(*ssa.Phi); ok {
+				phis = append(phis, ph)
+			}
+		}
+		if len(phis) == 0 || !pureBlock(h) {
+			continue // `for { select … }` worker loops carry no state and block somewhere
+		}
+		found := false
+		var path []*ssa.BasicBlock
+		onPath := map[*ssa.BasicBlock]int{} // block -> index in path
+		var dfs func(b *ssa.BasicBlock, depth int)
+		resolve := func(v ssa.Value) ssa.Value {
+			for k := 0; k < 16; k++ {
+				ph, ok := v.(*ssa.Phi)
+				if !ok {
+					return v
+				}
+				idx, on := onPath[ph.Block()]
+				if !on || idx == 0 {
+					return v // header phi or a phi outside the path
+				}
+				pred := path[idx-1]
+				taken := -1
+				for i, pr := range ph.Block().Preds {
+					if pr == pred {
+						taken = i
+					}
+				}
+				if taken < 0 {
+					return v
+				}
+				v = ph.Edges[taken]
+			}
+			return v
+		}
+		dfs = func(b *ssa.BasicBlock, depth int) {
+			if found || depth > 24 {
+				return
+			}
+			for i, s := range b.Succs {
+				if found {
+					return
+				}
+				if !FeasibleEdge(b, i) {
+					continue
+				}
+				if s == h {
+					// closing the cycle: evaluate the header phis on the edge from b
+					bi := -1
+					for k, pr := range h.Preds {
+						if pr == b {
+							bi = k
+						}
+					}
+					if bi < 0 {
+						continue
+					}
+					same := true
+					for _, ph := range phis {
+						if resolve(ph.Edges[bi]) != ssa.Value(ph) {
+							same = false
+						}
+					}
+					if same && !threeWayExhausted(append(append([]*ssa.BasicBlock{}, path...), h)) {
+						found = true
+						out = append(out, Stutter{l, b, append([]*ssa.BasicBlock{}, path...)})
+					}
+					continue
+				}
+				if !l.Body[s] || !pureBlock(s) {
+					continue
+				}
+				if _, on := onPath[s]; on {
+					continue
+				}
+				onPath[s] = len(path)
+				path = append(path, s)
+				dfs(s, depth+1)
+				path = path[:len(path)-1]
+				delete(onPath, s)
+			}
+		}
+		path = []*ssa.BasicBlock{h}
+		onPath[h] = 0
+		dfs(h, 0)
+	}
+	return out
+}
+
+// threeWayExhausted reports an infeasible path: it takes the "not equal" edge of tests
+// of one three-way comparison result (bytes.Compare, strings.Compare, cmp.Compare)
+// against all of -1, 0 and 1 — those functions return nothing else.
+func threeWayExhausted(path []*ssa.BasicBlock) bool {
+	excluded := map[ssa.Value]map[int64]bool{}
+	for i := 0; i+1 < len(path); i++ {
+		b, next := path[i], path[i+1]
+		ifi, ok := b.Instrs[len(b.Instrs)-1].(*ssa.If)
+		if !ok {
+			continue
+		}
+		bo, ok := ifi.Cond.(*ssa.BinOp)
+		if !ok {
+			continue
+		}
+		call, ok := bo.X.(*ssa.Call)
+		k, isK := ConstInt(bo.Y)
+		if !ok || !isK {
+			continue
+		}
+		switch CalleeName(call.Common()) {
+		case "bytes.Compare", "strings.Compare", "cmp.Compare":
+		default:
+			continue
+		}
+		neq := false
+		if bo.Op.String() == "==" && b.Succs[1] == next && b.Succs[0] != next {
+			neq = true
+		}
+		if bo.Op.String() == "!=" && b.Succs[0] == next && b.Succs[1] != next {
+			neq = true
+		}
+		if neq {
+			if excluded[call] == nil {
+				excluded[call] = map[int64]bool{}
+			}
+			excluded[call][k] = true
+		}
+	}
+	for _, ex := range excluded {
+		if ex[-1] && ex[0] && ex[1] {
+			return true
+		}
+	}
+	return false
+}
